@@ -195,9 +195,11 @@ func (ex *Exec) assumeWF(st *State, v Value) {
 				// a non-nil value of a named interface type implements it
 				st.assume(Implies(Ne(x, Int(0)), UF("implements."+typeKey(n), SBool, x)))
 			}
+			var isDec []*Term
 			for _, pt := range ex.repoPtrTags() {
-				st.assume(Implies(Eq(x, Int(int64(pt))), Gt(v.L[i+1], Int(0))))
+				isDec = append(isDec, Eq(x, Int(int64(pt))))
 			}
+			st.assume(Implies(Or(isDec...), Gt(v.L[i+1], Int(0))))
 			st.assume(Le(v.L[i+1], st.Alloc))
 			st.assume(Implies(Eq(x, Int(0)), Eq(v.L[i+1], Int(0))))
 		case "str":
